@@ -40,7 +40,7 @@ def plan(tier):
 def required(tier):
     return ["post:add_edge", "order_files_judged", "roundtrips_judged", "colon_in_Z_value", "tagless_link",
             "self_link", "both_end_declaration", "with_sequence_runs", "without_sequence_runs",
-            "complete_file_runs", "by_chrom_runs", "csv_rows_judged", "digit_in_tag_name", "mixed_case_sequences", "single_segment_chromosomes", "chromosome_gt_100000_segments"]
+            "complete_file_runs", "by_chrom_runs", "csv_rows_judged", "digit_in_tag_name", "mixed_case_sequences", "single_segment_chromosomes", "chromosome_gt_100000_segments", "input_with_stale_bo_no"]
 
 
 SIDE_L = {"+": 1, "-": 0}
@@ -156,6 +156,12 @@ def compare_graph(src, out, nodes, with_seq, viol, who, expect_bo=True):
         if expect_bo and (out.tag(sid, "BO") is None or out.tag(sid, "NO") is None):
             viol.append({"kind": "missing_bo_no", "msg": f"{who}: {sid} has no BO/NO"})
             break
+        names = [t.split(":", 1)[0] for t in otags]
+        dup = sorted({x for x in names if names.count(x) > 1})
+        if dup:
+            viol.append({"kind": "segment_tag_repeated", "msg": f"{who}: {sid}: tag(s) {dup} written more than once: {otags}",
+                         "witness": {"in": stags, "out": otags}})
+            break
     exp_links = src.canon_links(nodes=set(nodes))
     got_links = out.canon_links()
     if got_links != exp_links:
@@ -198,7 +204,12 @@ def part_a(ctx, rng, casedir, sit, viol, sigs, big=False):
     decorate(g, rng, sit)
     seq_in_file = rng.random() < 0.8
     gpath = os.path.join(casedir, "in.gfa" + (".gz" if rng.random() < 0.15 else ""))
-    g.write(gpath, rng=rng, shuffle=rng.random() < 0.4, interleave=rng.random() < 0.3, with_seq=seq_in_file)
+    stale = None
+    if not big and rng.random() < 0.2:
+        # the output of an earlier order_gfa run (other order, other graph version) is ordered again
+        stale = {n: (rng.randint(0, 50), rng.randint(0, 5)) for n in g.nodes}
+        sit["input_with_stale_bo_no"] += 1
+    g.write(gpath, rng=rng, shuffle=rng.random() < 0.4, interleave=rng.random() < 0.3, with_seq=seq_in_file, bo_no=stale)
     src = rg.read(gpath)
     named = OC.components_of(g)
     order = list(named)
